@@ -115,6 +115,7 @@ pub struct Run {
     violations: usize,
     violation_files: usize,
     known_hits: BTreeMap<String, (usize, Value)>,
+    kinds: BTreeMap<String, usize>,
     pub capped: bool,
 }
 
@@ -138,6 +139,7 @@ impl Run {
             violations: 0,
             violation_files: 0,
             known_hits: BTreeMap::new(),
+            kinds: BTreeMap::new(),
             capped: false,
         }
     }
@@ -184,6 +186,8 @@ impl Run {
             }
         }
         self.violations += 1;
+        let kind: String = what.chars().take_while(|c| !c.is_ascii_digit() && *c != '=').take(70).collect();
+        *self.kinds.entry(kind).or_insert(0) += 1;
         if self.violation_files < 5 {
             self.violation_files += 1;
             let dir = format!("{}/replays", VERIF_DIR);
@@ -221,6 +225,10 @@ impl Run {
                 format!("known_finding_{}", k),
                 json!({"cases": n, "example": ex}),
             );
+        }
+        if !self.kinds.is_empty() {
+            println!("violation kinds: {:?}", self.kinds);
+            self.coverage.insert("violation_kinds".to_string(), json!(self.kinds));
         }
         if !self.samples.is_empty() {
             self.coverage
